@@ -9,7 +9,8 @@ from ..lib import (build_dataset, build_scheme, canon_ranking, jsonable_ranking,
                    build_alg,
                    ConsensusFeature, OrderedPartition)
 from ..seed import digest
-from .common import Discard, run_alg, well_formed, dataset_tags
+from .common import Discard, run_alg, well_formed, dataset_tags, apply_mutation
+from ..lib import canon_rankings
 
 ID = "C06"
 ENVS = ["present", "absent", "present", "broken"]
@@ -52,6 +53,8 @@ def gen_case(st, tier, env):
     others = [{"alg": gen.gen_alg(w, env, heavy_ok=n_univ <= 6), "sched": gen.gen_sched(st.schedule)}
               for _ in range(2)]
     case = {"dataset": ds, "scheme": scheme, "parcons": pcs, "others": others}
+    if k.random() < 0.2:
+        case["touch_then_mutate"] = gen.gen_mutation(w)  # aggregate once, edit the Dataset in place, then go on
     if k.random() < 0.3:
         # history: the same Dataset object and the same algorithm instances are asked again under a second scheme that
         # shares the B vector (possibly rescaled) but not the T vector, then under the first one again
@@ -81,6 +84,19 @@ def _respects(vec_of, groups):
 
 def run_case(case, ctx):
     world = {"ds": build_dataset(case["dataset"]), "instances": {}}
+    if case.get("touch_then_mutate"):
+        warm = build_scheme(case["scheme"])
+        for a0 in ({"alg": "CopelandMethod"}, {"alg": "BordaCount"}, {"alg": "ParCons", "aux": {"alg": "BordaCount"},
+                                                                   "bound": 0}):
+            try:
+                inst, _ = _instance(world, a0, False)
+                if inst is not None:
+                    run_alg(a0, world["ds"], warm, None, None, alg=inst)
+            except Discard:
+                pass
+        apply_mutation(world["ds"], case["touch_then_mutate"])
+        world["mr"] = canon_rankings(world["ds"].rankings)
+        ctx.probe("touched_then_mutated")
     _phase(case, ctx, world, case["scheme"])
     if case.get("scheme2"):
         ctx.probe("second_scheme_phases")
@@ -101,7 +117,7 @@ def _instance(world, spec, with_spies):
 
 
 def _phase(case, ctx, world, scheme_spec):
-    mr = model.normalise(case["dataset"]["rankings"])
+    mr = world.get("mr") or model.normalise(case["dataset"]["rankings"])
     elems = model.universe(mr)
     idx = {e: i for i, e in enumerate(elems)}
     B, T = scheme_spec["B"], scheme_spec["T"]
